@@ -2,6 +2,8 @@ import GfaModel.Regex
 import GfaModel.Cigar
 import GfaModel.CigarText
 import GfaModel.Geometry
+import GfaModel.GraphObs
+import GfaModel.Field
 /- Line protocol of the model driver: `op US arg US arg …` → one reply line. -/
 namespace Gfa
 namespace Driver
@@ -95,6 +97,35 @@ def pure? (cmd : String) (args : List (List Char)) : Option String :=
       | _, _, _, _, _, _, _, _ => "err"
     | _, _ => "err")
   | _, _ => none
+
+/-- driver state: one model Gfa -/
+structure DState where
+  g : G.St := G.St.empty .gfa1
+  deriving Inhabited
+
+def gres (d : DState) (r : Except G.Err G.St) : DState × String :=
+  match r with
+  | .ok st => ({ d with g := st }, "ok")
+  | .error e => (d, "gerr " ++ e.str)
+
+/-- stateful commands (the model Gfa) -/
+def step (d : DState) (cmd : String) (args : List (List Char)) : DState × String :=
+  match cmd, args with
+  | "g.new", [v] =>
+    if v = "gfa1".toList then ({ d with g := G.St.empty .gfa1 }, "ok")
+    else if v = "gfa2".toList then ({ d with g := G.St.empty .gfa2 }, "ok")
+    else (d, "bad-op")
+  | "g.add", [l] =>
+    match G.parseRec (str l) with
+    | some r => gres d (G.add d.g r)
+    | none => (d, "bad-op")
+  | "g.rm", [n] => gres d (G.rm d.g (str n))
+  | "g.rename", [a, b] => gres d (G.rename d.g (str a) (str b))
+  | "g.obs", [] => (d, "ok " ++ G.obs d.g)
+  | _, _ =>
+    match pure? cmd args with
+    | some r => (d, r)
+    | none => (d, "bad-op")
 
 end Driver
 end Gfa
